@@ -81,6 +81,7 @@ class SimFS:
         self.fds = {}
         self._next_fd = FD_BASE
         self.open_files = []  # every OpenFile ever handed out and not yet closed
+        self.other_device_prefix = None  # e.g. /SIMFS/tmp when the temp directory is another file system
         self.unlink_log = []  # (path, ino, atime, mtime, size) for every unlink/replace victim
         self.mutations = 0
 
@@ -219,6 +220,11 @@ class SimFS:
 
     def rename(self, src, dst, replace=True):
         self.hook("rename", src, mut=True)
+        if self.other_device_prefix:
+            a_in = posixpath.normpath(src).startswith(self.other_device_prefix + "/")
+            b_in = posixpath.normpath(dst).startswith(self.other_device_prefix + "/")
+            if a_in != b_in:
+                raise _err(errno.EXDEV, src, dst)  # a different mounted file system
         sp, sn = self._lookup(src, want_parent=True)
         dp, dn = self._lookup(dst, want_parent=True)
         node = sp.children.get(sn)
